@@ -18,7 +18,9 @@ COQ_CASE_TYPE = "list M_RelKinds.case"
 COQ_CHECK = "(forallb M_RelKinds.check_case)"
 OBLIGATIONS = ["call_forms_agree", "slice_spec", "slice_compose", "matrix_slice_order_irrelevant",
                "expr_value_set_order_irrelevant", "mk_fun_wf", "mk_mat_wf", "cond_slice_true_partial",
-               "cond_slice_false_neutral_partial", "cond_false_zeroary_refuted"]
+               "cond_slice_false_neutral_partial", "cond_false_zeroary_refuted",
+               "cond_call_forms_agree", "call_forms_agree_all", "cond_slice_spec", "cond_slice_spec_no_neutral",
+               "slice_spec_all", "cond_slice_compose", "slice_compose_all"]
 N_QUICK, N_THOROUGH = 100, 600         # batches of 10 sub-cases each
 PARALLEL = 8
 SHARD = 12
